@@ -163,6 +163,60 @@ theorem push_spec {src : Nat → UInt8} {s : Sorter} (h : Inv src s) (data : Byt
       exact ⟨Or.inr rfl, hn.rp, hn.gwf, hn.gaps, hn.inv, hn.bufs, hn.bufs_err, fun _ => hl,
         (by intro hc; cases hc)⟩
 
+/-! ### Peek -/
+
+theorem srcSeg_zero (src : Nat → UInt8) (off : Nat) : srcSeg src off 0 = [] := by simp [srcSeg]
+
+theorem srcSeg_take (src : Nat → UInt8) (off len n : Nat) (h : n ≤ len) : (srcSeg src off len).take n = srcSeg src off n := by
+  apply List.ext_getElem?
+  intro j
+  rcases Nat.lt_or_ge j n with hlt | hge
+  · rw [List.getElem?_take_of_lt hlt, srcSeg_get _ _ _ _ (by omega), srcSeg_get _ _ _ _ hlt]
+  · rw [List.getElem?_eq_none (by simp [srcSeg_length]; omega), List.getElem?_eq_none (by rw [srcSeg_length]; exact hge)]
+
+theorem peekCopy_zero (fuel : Nat) (q : Queue) (pos : Nat) : peekCopy fuel q pos 0 = [] := by
+  cases fuel <;> simp [peekCopy]
+
+/-- what `Peek` copies is the source -/
+theorem peek_loops {src : Nat → UInt8} {q : Queue}     (hdata : ∀ x ∈ q, ∀ j, j < elen x → x.2.data[j]? = some (src (x.1 + j)))
+    (fuel pos n : Nat) (h : peekCheck fuel q pos n = true) : peekCopy fuel q pos n = srcSeg src pos n := by
+  induction fuel generalizing pos n with
+  | zero => simp [peekCheck] at h
+  | succ f ih =>
+    simp only [peekCheck] at h
+    simp only [peekCopy]
+    by_cases hn : n = 0
+    · subst hn; simp [srcSeg_zero]
+    · simp only [hn, if_false] at h ⊢
+      cases hg : qget q pos with
+      | none => simp [hg] at h
+      | some e =>
+        simp only [hg] at h ⊢
+        have he := mem_of_qget hg
+        have hed : e.data = srcSeg src pos e.data.length := eq_srcSeg (hdata _ he)
+        by_cases hle : n ≤ e.data.length
+        · have hlen : (e.data.take n).length = n := by simp [List.length_take]; omega
+          rw [hlen, Nat.sub_self, peekCopy_zero, List.append_nil, hed, srcSeg_take _ _ _ _ hle]
+        · simp only [hle, if_false] at h
+          have hlen : (e.data.take n).length = e.data.length := by simp [List.length_take]; omega
+          have htake : e.data.take n = e.data := List.take_of_length_le (by omega)
+          rw [hlen, htake, ih _ _ h]
+          have : srcSeg src pos n = srcSeg src pos (e.data.length + (n - e.data.length)) := by congr 1; omega
+          rw [this, ← srcSeg_append, ← hed]
+
+/-- `Peek(offset, p)` never changes the sorter (it is a function of the state) and, when it succeeds,
+fills `p` with the source bytes `[offset, offset + len(p))`. -/
+theorem peek_spec {src : Nat → UInt8} {s : Sorter} (h : Inv src s) (off n : Nat) (d : Bytes) (hp : s.peek off n = some d) :
+    d = srcSeg src off n := by
+  unfold Sorter.peek at hp
+  split at hp
+  · rename_i hn; subst hn; cases hp; simp [srcSeg_zero]
+  · split at hp
+    · rename_i hc
+      cases hp
+      exact peek_loops h.data _ _ _ hc
+    · cases hp
+
 /-! ### histories -/
 
 /-- operations on a sorter: `Push` of the source segment `[off, off+len)` in a buffer with release
